@@ -30,6 +30,64 @@ def safe_check(solver, timeout_ms):
         timer.cancel()
 
 
+def forked_check(solver, timeout_ms, want_model=False):
+    """solver.check() in a forked child that is killed at the deadline: z3's sequence solver sometimes honours neither
+    its time-out nor Z3_interrupt (and grows to gigabytes), which a watchdog thread cannot stop.
+    returns (z3.unsat | z3.sat | z3.unknown, model text or None)"""
+    import select
+    import signal
+    rfd, wfd = os.pipe()
+    pid = os.fork()
+    if pid == 0:
+        try:
+            os.close(rfd)
+            solver.set("timeout", int(timeout_ms))
+            res = solver.check()
+            out = str(res)
+            if res == z3.sat and want_model:
+                out += "\n" + solver.model().sexpr()[:20000]
+            os.write(wfd, out.encode("utf-8", "replace"))
+        except BaseException:
+            try:
+                os.write(wfd, b"unknown")
+            except BaseException:
+                pass
+        finally:
+            os._exit(0)
+    os.close(wfd)
+    deadline = time.time() + timeout_ms / 1000.0 * 1.5 + 0.5
+    buf = b""
+    try:
+        while True:
+            left = deadline - time.time()
+            if left <= 0:
+                break
+            ready, _, _ = select.select([rfd], [], [], left)
+            if not ready:
+                break
+            chunk = os.read(rfd, 65536)
+            if not chunk:
+                break
+            buf += chunk
+    finally:
+        os.close(rfd)
+        try:
+            os.kill(pid, signal.SIGKILL)
+        except OSError:
+            pass
+        try:
+            os.waitpid(pid, 0)
+        except OSError:
+            pass
+    text = buf.decode("utf-8", "replace")
+    first, _, rest = text.partition("\n")
+    if first == "unsat":
+        return z3.unsat, None
+    if first == "sat":
+        return z3.sat, rest
+    return z3.unknown, None
+
+
 def _mentions(term, name):
     seen = set()
     stack = [term]
@@ -210,12 +268,12 @@ def _check_vc(pc, goal, tier="quick", want_model=True, extra=(), hints=None):
     strings = _uses_strings(allt)
     text = None
     if hints.get("api_only_ms"):
-        r0 = safe_check(s, hints["api_only_ms"])
+        r0 = forked_check(s, hints["api_only_ms"])[0] if strings else safe_check(s, hints["api_only_ms"])
         st_ = "unsat" if r0 == z3.unsat else "unknown"      # a quick `sat` is re-examined later
         return {"status": st_, "backend": "z3-api-%s" % z3.get_version_string(), "time": time.time() - t0}
     if strings:
         # 0. the z3 API for a moment (mixed integer/string VCs are often immediate for z3)
-        r0 = safe_check(s, 250)
+        r0 = forked_check(s, 250)[0]
         if r0 == z3.unsat:
             return {"status": "unsat", "backend": "z3-api-%s" % z3.get_version_string(), "time": time.time() - t0}
         # 1. cvc5 briefly (it decides most word-equation VCs in milliseconds)
@@ -228,7 +286,13 @@ def _check_vc(pc, goal, tier="quick", want_model=True, extra=(), hints=None):
         except Exception:
             text = None
     # 2. the z3 API (under the watchdog)
-    r = safe_check(s, b["api_ms"])
+    if strings:
+        r, mtext = forked_check(s, b["api_ms"], want_model=want_model)
+        if r == z3.sat:
+            return {"status": "sat", "backend": "z3-api-%s" % z3.get_version_string(), "time": time.time() - t0,
+                    "model": None, "model_text": mtext}
+    else:
+        r = safe_check(s, b["api_ms"])
     dt = time.time() - t0
     if r == z3.unsat:
         return {"status": "unsat", "backend": "z3-api-%s" % z3.get_version_string(), "time": dt}
